@@ -89,6 +89,32 @@ def run(chk, n_fonts):
                 txt = txt * 8                                              # long enough to fill a slot map
             cases.append('m%d.%d fsm %s %d %d %s' % (k, pi, p, pi, 0, ''.join('%08x' % c for c in txt)))
             info.append((k, pi, bytes(silf[a:b]), what))
+    # many rules: 100 rules of each length 1..3 over one glyph, so that one walk over "aaaa" goes through three success states whose
+    # lists together exceed MAX_RULES: the accumulated list must stop at MAX_RULES entries (and stay inside the machine's buffer)
+    for k2 in range(2):
+        g = rng.choice(sorted(inv))
+        per = rng.choice((100, 110, 70))
+        rules = []
+        for ln in (1, 2, 3):
+            for _ in range(per):
+                rules.append(dict(pre=0, pat=[{g}] * ln, acts=[[('G', g)]] + [[] for _ in range(ln - 1)], con=None, ret=0))
+        if k2 == 0:
+            rng.shuffle(rules)
+        prog = [dict(maxloop=1, rules=rules, alpha=[g])]
+        silf = bytearray(K.compile_silf(prog, ng0 - 1, 1))
+        if k2 == 1:
+            # every sort key 3, shorter rules first in the font: the rules of the deeper states have the LOWER precedence, so the merge
+            # runs out of accumulated rules first and what is left of the new state's list is appended
+            a0, b0 = pass_slices(silf)[0]
+            o0 = table_offsets(bytes(silf[a0:b0]))
+            sk = a0 + o0['starts'] + 2 * o0['nstart']
+            for r_ in range(o0['nrules']):
+                silf[sk + 2 * r_:sk + 2 * r_ + 2] = struct.pack('>H', 3)
+        p = os.path.join(tmp, 'many%d.ttf' % k2)
+        open(p, 'wb').write(K.replace_table(base, b'Silf', bytes(silf)))
+        a, b = pass_slices(silf)[0]
+        cases.append('many%d.0 fsm %s 0 0 %s' % (k2, p, ''.join('%08x' % inv[g] for _ in range(5))))
+        info.append((n_fonts + k2, 0, bytes(silf[a:b]), 'intact: %d rules of each length 1..3%s' % (per, ', equal sort keys' if k2 else '')))
     _, il, _ = vlib.run_pair(None, w, cases, timeout=2400)
     mcases = []
     for c, (k, pi, body, what), i in zip(cases, info, il):
